@@ -437,7 +437,7 @@ PARAM_VALUES = {
     'date': [_dt.date(2020, 1, 2), _dt.date(999, 12, 31), _dt.date(1, 1, 1)],
     'datetime': [_dt.datetime(2020, 1, 2, 3, 4, 5), _dt.datetime(2020, 1, 2, 3, 4, 5, 123456), _dt.datetime(999, 12, 31, 23, 59, 59, 999999), _dt.datetime(1, 1, 1)],
     'timedelta': [_dt.timedelta(0), _dt.timedelta(seconds=1), _dt.timedelta(seconds=1, microseconds=500000), _dt.timedelta(days=2, seconds=3, microseconds=4), _dt.timedelta(microseconds=1),
-                  _dt.timedelta(days=-1, microseconds=250000), _dt.timedelta(hours=36)],
+                  _dt.timedelta(days=-1, microseconds=250000), _dt.timedelta(hours=36), _dt.timedelta(-1, 0, 1), _dt.timedelta(100000, 0, 1), _dt.timedelta(5, 86399, 999999), _dt.timedelta(days=36500, seconds=1)],
     'bytes': [b'', b'ab', bytes(range(6))],
 }
 
@@ -475,8 +475,8 @@ def _pl_spec(cfg, i, path):
     if path.outcome != 'ret': return False
     (equal, t_param, t_lit, p, l), bound, lit = path.value
     if cfg['type'] in ('float', 'timedelta', 'Decimal'):
-        # numbers: the same number up to the last binary digit of a double (the literal goes through a decimal text)
-        return (equal == 1 or abs(float(p) - float(l)) <= 1e-12 * max(1.0, abs(float(l)))) and (t_param == t_lit or {t_param, t_lit} <= {'real', 'integer', 'text'})
+        # numbers: SQL `=` must say they are the same number (repr() of a double reads back as the same double); the storage class may differ (integer / real / text of a number)
+        return equal == 1 and (t_param == t_lit or {t_param, t_lit} <= {'real', 'integer', 'text'})
     return equal == 1 and t_param == t_lit
 
 
@@ -510,3 +510,6 @@ CONTRACTS = [
              [('bound_value_and_inline_literal_denote_the_same_database_value', _pl_spec)], level='bounded',
              bound='9 Python types, 2 - 7 values each (boundary years, sub-second and negative intervals, quotes, percent, empty), compared inside a real SQLite connection'),
 ]
+
+from contracts import c07 as _c07
+CONTRACTS += [c for c in _c07.CONTRACTS if c.id == 'sqlite_converters.roundtrip']          # py2sql of every SQLite converter writes a value that reads back as the same value (shared with C07)
